@@ -1376,3 +1376,47 @@ package websocket
 //@ bind c0,r0,e0 after call:DialContext#1
 //@ assert at call:DialContext#1[C14.dial]: arg0 == d && same(arg2, urlStr) && arg3 == requestHeader
 //@ assert at return#$[C14.dial]: conn == c0 && resp == r0 && err == e0
+
+// ---------------------------------------------------------------------------
+// Setters and small accessors
+
+//@ func (*Conn).SetWriteDeadline
+//@ tags C10
+//@ modifies c.writeDeadline
+//@ ensures[C10.setdeadline] c.writeDeadline == t && result == nil
+
+//@ func (*Conn).SetReadLimit
+//@ tags C06
+//@ modifies c.readLimit
+//@ ensures[C06.setlimit] c.readLimit == limit
+
+//@ func (*Conn).SetReadDeadline
+//@ tags C05
+//@ requires c.conn != nil
+//@ assert at call:SetReadDeadline#1[C05.readdeadline]: arg0 == c.conn && arg1 == t
+
+//@ func (*Conn).Close
+//@ tags C11
+//@ requires c.conn != nil
+//@ cover Close C11.closeonly
+//@ assert at call:Close#1[C11.closeonly]: arg0 == c.conn
+
+//@ func (*Conn).Subprotocol
+//@ tags C12 C14
+//@ pure
+//@ ensures[C12.subproto] same(result, c.subprotocol)
+
+//@ func (*Conn).SetPingHandler
+//@ tags C08
+//@ modifies c.handlePing
+//@ ensures[C08.sethandler] imp(h != nil, c.handlePing == h) && c.handlePing != nil
+
+//@ func (*Conn).SetPongHandler
+//@ tags C08
+//@ modifies c.handlePong
+//@ ensures[C08.sethandler] imp(h != nil, c.handlePong == h) && c.handlePong != nil
+
+//@ func (*Conn).SetCloseHandler
+//@ tags C08
+//@ modifies c.handleClose
+//@ ensures[C08.sethandler] imp(h != nil, c.handleClose == h) && c.handleClose != nil
